@@ -116,6 +116,20 @@ func c09Shard(t Tier, shard, n int) (run *report.Run) {
 	}
 	dl := deadline(t, 100*time.Second, 20*time.Minute)
 	cases := buildShard(e, maxLen, shard, n)
+	// every genesis: unusual but validation-passing genesis variants, each followed by one block of mixed traffic; they
+	// are compared several times (each execution samples Go's map iteration order anew)
+	gvNames := sortedKeys(genesisVariants)
+	for gi, gv := range gvNames {
+		if gi%n != shard {
+			continue
+		}
+		blocks := [][]int{{0, 2, 5}}
+		h, obs := e.buildHistoryG(blocks, gv)
+		c := &histCase{blocks: blocks, name: "genesis=" + gv + " " + histName(e.mixedOps(), blocks), hist: h, obsA: obs}
+		for k := 0; k < 5; k++ {
+			cases = append(cases, c)
+		}
+	}
 	if len(cases) == 0 {
 		run.Coverage["states"], run.Coverage["transitions"], run.Coverage["histories"], run.Coverage["configs"] = 0, 0, 0, 0
 		run.Coverage["cap_hit"], run.Coverage["tx_outcomes"] = false, map[string]int{}
